@@ -4,7 +4,9 @@ Plug-in for bin/check (see bin/checks.py). One harness run (`p3r-harness packing
 real code: (1) sentinel read-back for generated proof shapes — real `allocate` / `pack_values`,
 allocation-only circuit run, every target read back by an independent walk — and prints the
 allocation trace and the label sequences of both packed vectors in the driver's format;
-(2) the single-position perturbation campaign on real proofs (native verdict vs runner outcome),
+(2) the single-position perturbation campaign on real proofs (native verdict vs runner outcome) — proofs with
+single-root commitments and with Merkle caps of height 1..8 on both MMCSs — plus two static oracles on each
+verifier circuit (every input is an operand of some op; every input reaches a Poseidon permutation),
 followed by the *structural* perturbation campaign: every container / option / cap / arity field of
 those proofs grown or shrunk by one, the verifier circuit rebuilt for the mutated proof, and — when
 that circuit accepts — every surplus element and the first / last element of every other kind
@@ -27,6 +29,10 @@ CORRESPONDENCE = ("packing (recursion/src/types/proof.rs, pcs/fri/targets.rs Rec
                   "public_inputs.rs Stark/BatchStarkVerifierInputsBuilder::{allocate,pack_values}) "
                   "vs lean/P3R/Model/Packing.lean")
 
+CORRESPONDENCE_PHASE = ("FRI query openings verified against their commitments (recursion/src/pcs/fri/verifier.rs verify_fri_circuit: open_input + "
+                        "commit-phase loop incl. its log_folded_height == 0 special case, pcs/mmcs.rs cap handling; reached through "
+                        "RecursivePcs::verify_circuit, answer read off the graph of the built circuit) vs lean/P3R/Model/FriPhases.lean friPhases")
+
 LINES_PER_CASE = 5
 
 # every full run must exercise all of these (uni-ZK became usable with fix C14-1; their honest proofs are
@@ -34,15 +40,36 @@ LINES_PER_CASE = 5
 EXPECTED_SETUPS = ["bb_plain.uni", "bb_plain.batch", "bb_plain.tables", "bb_hid.uni", "bb_hid.batch",
                    "bb_salted.uni", "bb_salted.batch"]
 
+# Merkle cap heights of the additional campaign setups `<cfg>.<uni|batch>_cap<h>` (both MMCSs — input and FRI
+# commit phase — get a cap of that height; `u8` would mean uni setups only). The native MMCS clamps the height per tree,
+# so with the testing FRI parameters h=2 puts the last commit-phase codeword entirely inside its cap (empty
+# Merkle path), h=3 the last two, h=8 every tree of the proof (input commitments included).
+CAPS_QUICK = "1,2,3,4,8"
+CAPS_THOROUGH = "1,2,3,4,5,6,7,8"
+
+
+def expected_setups(caps):
+    out = list(EXPECTED_SETUPS)
+    for cfg in ("bb_plain", "bb_hid", "bb_salted"):
+        for c in caps.split(","):
+            c = c.strip()
+            u, b = (c[0] != "b"), (c[0] != "u")
+            h = c.lstrip("ub")
+            if u:
+                out.append(f"{cfg}.uni_cap{h}")
+            if b:
+                out.append(f"{cfg}.batch_cap{h}")
+    return out
+
 
 def _read(p):
     with open(p) as fh:
         return [l.rstrip("\n") for l in fh]
 
 
-def _harness(ctx, out, seed, shapes, corpus, campaign, per_kind, setups="all", label="", op="", merges=0):
+def _harness(ctx, out, seed, shapes, corpus, campaign, per_kind, setups="all", label="", op="", merges=0, caps=CAPS_QUICK, phases=0):
     cmd = [ctx["harness"], "packing", "--seed", str(seed), "--shapes", str(shapes), "--out", out,
-           "--campaign", str(campaign), "--per-kind", str(per_kind), "--setups", setups, "--merges", str(merges)]
+           "--campaign", str(campaign), "--per-kind", str(per_kind), "--setups", setups, "--merges", str(merges), "--caps", caps, "--phases", str(phases)]
     if corpus:
         cmd += ["--corpus", corpus]
     if label:
@@ -70,14 +97,15 @@ def run(ctx):
             json.dump(rp, open(f"{work}/replay_corpus/r.json", "w"))
             runs.append((f"{work}/run0", dict(seed=seed, shapes=0, corpus=f"{work}/replay_corpus", campaign=0, per_kind=0)))
     elif tier == "quick":
-        runs.append((f"{work}/run0", dict(seed=seed, shapes=3000, corpus=f"{ctx['root']}/corpus/c14", campaign=1, per_kind=0, merges=6000)))
+        runs.append((f"{work}/run0", dict(seed=seed, shapes=3000, corpus=f"{ctx['root']}/corpus/c14", campaign=1, per_kind=0, merges=6000, phases=4000)))
     else:
-        runs.append((f"{work}/run0", dict(seed=seed, shapes=120000, corpus=f"{ctx['root']}/corpus/c14", campaign=1, per_kind=0, merges=400000)))
+        runs.append((f"{work}/run0", dict(seed=seed, shapes=120000, corpus=f"{ctx['root']}/corpus/c14", campaign=1, per_kind=0, merges=400000,
+                                          caps=CAPS_THOROUGH, phases=200000)))
         for k in range(1, 9):   # the ZK provers are randomised: more proofs, every position each
             runs.append((f"{work}/run{k}", dict(seed=seed + 7919 * k, shapes=0, corpus=None, campaign=1, per_kind=0)))
 
     tot = {"evaluations": 0, "distinct": 0, "inputs": 0, "perturbations": 0, "lines": 0, "disagreements": 0,
-           "merges": 0, "merge_distinct": 0, "shape_perturbations": 0, "shape_followups": 0}
+           "merges": 0, "merge_distinct": 0, "shape_perturbations": 0, "shape_followups": 0, "phases": 0, "phase_distinct": 0}
     hist, samples, campaign, corpus_notes = {}, [], [], []
     model_flags = {"validated": 0, "not_validated": 0, "dead_when_validated": 0, "dead_when_not_validated": 0, "wf0": 0}
     for out, kw in runs:
@@ -93,6 +121,7 @@ def run(ctx):
         tot["evaluations"] += rep["evaluations"]; tot["distinct"] += rep["distinct"]
         tot["inputs"] += rep["inputs_checked"]; tot["perturbations"] += rep["perturbations"]
         tot["merges"] += rep.get("merge_evaluations", 0); tot["merge_distinct"] += rep.get("merge_distinct", 0)
+        tot["phases"] += rep.get("phase_evaluations", 0); tot["phase_distinct"] += rep.get("phase_distinct", 0)
         tot["shape_perturbations"] += sum(c.get("shape_perturbations", 0) for c in rep["campaign"])
         tot["shape_followups"] += sum(c.get("shape_followup_perturbations", 0) for c in rep["campaign"])
         for k, v in rep["hist"].items():
@@ -104,7 +133,7 @@ def run(ctx):
         campaign += rep["campaign"]
         if kw.get("campaign") == 1 and kw.get("setups", "all") == "all":
             got = {c["setup"]: c for c in rep["campaign"]}
-            for st in EXPECTED_SETUPS:
+            for st in expected_setups(kw.get("caps", CAPS_QUICK)):
                 c = got.get(st)
                 if c is None or (c["baseline_ok"] and (c["perturbations"] < c["packed_positions"] or c.get("shape_sites", 0) == 0
                                                        or c.get("shape_perturbations", 0) < c.get("shape_sites", 0))):
@@ -161,13 +190,16 @@ def run(ctx):
                                                   "line_kind": (a or b or "").split(" ")[0], "token_index": j,
                                                   "impl": (ta[max(0, j - 2):j + 3]), "model": (tb[max(0, j - 2):j + 3])},
                                        "no_input": True})
-        # hidmerge correspondence (one answer line per case)
-        if os.path.exists(f"{out}/c14m.cases") and os.path.getsize(f"{out}/c14m.cases") > 0:
-            with open(f"{out}/c14m.cases") as fin:
+        # one-answer-line-per-case correspondences: hidmerge, friphase
+        for stem, corr, dead_prefix, dead_thm in (("c14m", CORRESPONDENCE_MERGE, "hidmerge ok-dead", "hidMerge_complete"),
+                                                   ("c14p", CORRESPONDENCE_PHASE, None, None)):
+            if not (os.path.exists(f"{out}/{stem}.cases") and os.path.getsize(f"{out}/{stem}.cases") > 0):
+                continue
+            with open(f"{out}/{stem}.cases") as fin:
                 rc, mo = ctx["sh"]([driver], stdin=fin, timeout=3600)
-            with open(f"{out}/c14m.model", "w") as fh:
+            with open(f"{out}/{stem}.model", "w") as fh:
                 fh.write(mo)
-            mimpl, mmodel, mcases = _read(f"{out}/c14m.impl"), _read(f"{out}/c14m.model"), _read(f"{out}/c14m.cases")
+            mimpl, mmodel, mcases = _read(f"{out}/{stem}.impl"), _read(f"{out}/{stem}.model"), _read(f"{out}/{stem}.cases")
             while mmodel and mmodel[-1] == "":
                 mmodel.pop()
             tot["lines"] += len(mimpl)
@@ -175,36 +207,46 @@ def run(ctx):
             for k in range(max(len(mimpl), len(mmodel))):
                 a = mimpl[k] if k < len(mimpl) else None
                 b = mmodel[k] if k < len(mmodel) else None
-                if b is not None and b.startswith("hidmerge ok-dead"):
-                    violations.append({"class": "model-self-check", "what": f"model: theorem hidMerge_complete contradicted by evaluation: {b}",
+                if dead_prefix and b is not None and b.startswith(dead_prefix):
+                    violations.append({"class": "model-self-check", "what": f"model: theorem {dead_thm} contradicted by evaluation: {b}",
                                        "replay": {"case_line": mcases[k] if k < len(mcases) else ""}, "no_input": True})
                 if a != b:
                     tot["disagreements"] += 1
                     if shown < 3:
                         shown += 1
                         violations.append({"class": "model-disagreement",
-                                           "what": f"correspondence {CORRESPONDENCE_MERGE} no longer checks: impl={a!r} model={b!r}",
-                                           "replay": {"correspondence": CORRESPONDENCE_MERGE, "case_line": mcases[k] if k < len(mcases) else "",
+                                           "what": f"correspondence {corr} no longer checks: impl={a!r} model={b!r}",
+                                           "replay": {"correspondence": corr, "case_line": mcases[k] if k < len(mcases) else "",
                                                       "impl": a, "model": b},
                                            "no_input": True})
-    cov = {"evaluations": tot["evaluations"] + tot["perturbations"] + tot["merges"],
+    cov = {"evaluations": tot["evaluations"] + tot["perturbations"] + tot["merges"] + tot["phases"],
            "hidmerge_cases": tot["merges"], "hidmerge_distinct": tot["merge_distinct"],
+           "friphase_cases": tot["phases"], "friphase_distinct": tot["phase_distinct"],
            "shape_perturbations": tot["shape_perturbations"], "shape_followup_perturbations": tot["shape_followups"],
            "shapes": tot["evaluations"], "inputs_read_back": tot["inputs"], "perturbations": tot["perturbations"],
-           "distinct_nontrivial": tot["distinct"] + tot["merge_distinct"],
+           "distinct_nontrivial": tot["distinct"] + tot["merge_distinct"] + tot["phase_distinct"],
            "rule": "shapes: seeded generator over {uni, batch} x {TwoAdicFriPcs+MerkleTreeMmcs, HidingFriPcs+MerkleTreeMmcs, "
                    "HidingFriPcs+MerkleTreeHidingMmcs (BabyBear, D=4, E=8), TwoAdicFriPcs (Goldilocks, D=2, E=4)}: 1-4 tables, widths 0-5, "
                    "optional next-row / preprocessed / random openings, 0-4 quotient chunks of 0-4 values, cap roots {1,2,4}, 0-3 FRI phases with "
                    "log-arity 1-3, 0-3 queries, 0-3 batch openings of 0-3 matrices, salts, hiding rounds, lookup terminals, preprocessed "
                    "commitment; distinct = distinct shape lines; every shape allocates, packs, builds and runs a real circuit and every one of its "
                    "inputs is read back (none is trivial). perturbations: every packed position of 7 real proofs (uni / batch x plain / hiding PCS / hiding PCS + salted MMCS, "
-                   "+ circuit tables), each judged by the native verifier and by the circuit runner; structural perturbations: for the same 7 proofs every "
+                   "+ circuit tables) with single-root commitments, and of the same uni / batch proofs made with a Merkle cap of height 1, 2, 3 (quick; "
+                   "thorough also 4, 5, 6) and 8 (= every Merkle tree of the proof entirely inside its cap; quick: uni only) on both the input MMCS and "
+                   "the FRI commit-phase MMCS, each judged by the native verifier and by the circuit runner; static oracles on each of these verifier "
+                   "circuits: every allocated input is an operand of some operation, and has a dataflow path into a Poseidon permutation (transcript "
+                   "absorption or Merkle leaf hash); structural perturbations: for the same proofs every "
                    "container (opened-value vectors, quotient chunk lists, hiding random openings at all four nesting levels, FRI commit-phase caps / PoW "
                    "witnesses / query proofs / batch openings / matrices / rows / salts / steps / siblings / final polynomial, instances, lookup terminals, "
                    "air public values) pushed and popped by one, every option dropped / supplied, every cap doubled / halved, every log_arity +-1; the "
                    "verifier circuit is rebuilt for the mutated proof; if it accepts, every surplus element and first/last of every other kind is altered; "
                    "hidmerge: seeded opening structures (0-4 rounds x 0-4 matrices x 0-3 points) against hiding shapes, mirrored or with 1-2 discrepancies "
-                   "(surplus / missing round, matrix, point on either side), through the real HidingFriPcs::verify_circuit (plain and salted MMCS)",
+                   "(surplus / missing round, matrix, point on either side), through the real HidingFriPcs::verify_circuit (plain and salted MMCS); "
+                   "friphase: one FRI query over a single matrix, log_blowup {0..3} (0 rarely, to reach the log_folded_height == 0 skip), "
+                   "log_final_poly_len {0,1,2}, 1-4 phases of log-arity 1-3, cap heights of the input commitment and of every commit-phase commitment "
+                   "in {none, whole tree, one below, in between, one too many} or one MMCS cap height clamped per tree, x {TwoAdicFriPcs, HidingFriPcs, "
+                   "HidingFriPcs + salted MMCS}: verifier circuit built by the real verify_circuit, per opening 'values / salt reach a Poseidon "
+                   "permutation' read off the circuit graph",
            "samples": samples[:6], "input_distribution": hist,
            "traces_validated_against_impl": tot["lines"], "disagreements_checked": tot["disagreements"],
            "campaign": campaign, "corpus_notes": corpus_notes, "model_flags": model_flags,
@@ -213,7 +255,8 @@ def run(ctx):
 
 
 CHECK = {
-    "lean_modules": ["P3R.Props.C14", "P3R.Witness.C14", "P3R.Props.C14Merge", "P3R.Witness.C14Merge"],
+    "lean_modules": ["P3R.Props.C14", "P3R.Witness.C14", "P3R.Props.C14Merge", "P3R.Witness.C14Merge",
+                     "P3R.Props.C14Phases", "P3R.Witness.C14Phases"],
     "lean_exes": ["p3r_driver_c14"],
     "theorems": [
         "P3R.C14.packing_aligned_uni", "P3R.C14.packing_aligned_batch",
@@ -223,6 +266,8 @@ CHECK = {
         "P3R.Witness.C14.wf_needed", "P3R.Witness.C14.bad_lengths", "P3R.Witness.C14.pub_aligned_unconditional",
         "P3R.C14.hidMerge_complete", "P3R.C14.hidMerge_no_dead_input", "P3R.C14.hidMerge_ok_iff", "P3R.C14.hidMerge_error_of_mismatch",
         "P3R.Witness.C14.points_check_needed", "P3R.Witness.C14.surplus_point_lengths", "P3R.Witness.C14.surplus_point_rejected",
+        "P3R.C14.friPhases_eq_replicate", "P3R.C14.friPhases_all_mmcs", "P3R.C14.friPhases_cap_independent", "P3R.C14.stepUsesAt_mmcs",
+        "P3R.Witness.C14.blowup_needed", "P3R.Witness.C14.skipped_salts_dead",
     ],
     "run": run,
     "trusted_base": [
@@ -233,7 +278,11 @@ CHECK = {
         "reached through the public flattened view, the preprocessed commitment's targets by elimination (last unlabelled public inputs)",
         "hidMerge is a transcription of merge_hiding_random_openings (private fn): tied to the Rust only through the verdict of "
         "HidingFriPcs::verify_circuit (which check fired), and end-to-end by the structural perturbation campaign",
+        "friPhases is a transcription of the commit-phase loop of verify_fri_circuit (control flow only: skip / verify / refuse per phase); tied to "
+        "the Rust by reading, per opening of circuits built by the real verify_circuit, whether its values and salt reach a Poseidon permutation",
         "structural perturbation walk (harness/src/c14_campaign.rs ShapeVis / swalk_*): hand-written enumeration of the proof's containers",
+        "static oracles (harness/src/c14_campaign.rs static_oracles): operand sets read from the public fields of p3_circuit::Op; a Poseidon "
+        "permutation is recognised by the NpoTypeId prefix 'poseidon'; 'created by an op' = operand not defined by an earlier op",
         "no_dead_input is about the block-level consumption model (…Uses); that a consumed operand is constrained is the subject of "
         "C05/C07/C08/C13/C20 and is observed here only through the perturbation campaign",
     ],
@@ -243,6 +292,9 @@ CHECK = {
         "PrivateInputLengthMismatch, replayed from corpus/c14/malformed_siblings.json every run)",
         "no_dead_input: shapes accepted by the verifier's own shape validation (preprocessed openings only with a preprocessed commitment, "
         "lookup terminals only with a permutation commitment); other shapes yield InvalidProofShape and no circuit",
+        "commit-phase steps: the block stepUses (siblings and salts of every phase) of pcsUses is justified by friPhases_eq_replicate for "
+        "log_blowup + log_final_poly_len >= 1 (every FRI configuration has log_blowup >= 1), for every cap height; without it the last phase can be "
+        "fold-only and its salts dead (P3R.Witness.C14.blowup_needed, skipped_salts_dead)",
         "hiding PCS: the block `optL p.hid hidPriv` of pcsUses is justified by hidMerge_complete for proofs on which the merge succeeds; on every "
         "other proof merge_hiding_random_openings returns InvalidProofShape and no circuit is built (hidMerge_ok_iff)",
         "a structurally mutated proof that the rebuilt circuit accepts while the native verifier rejects is a C14 violation only if one of its "
@@ -250,6 +302,9 @@ CHECK = {
         "queries is taken from the proof, FriVerifierParams has no num_queries) is listed in coverage.campaign[].shape_accepted, subject of C01/C15",
         "allocation and packing use the same proof shape (allocate(proof) then pack_values(proof') with shape(proof') = shape(proof)); a proof of a "
         "different shape is refused by set_public_inputs / set_private_inputs on length, or is C15's subject",
+        "static oracle input-not-hash-bound: every element of a STARK/FRI proof is absorbed by the Fiat-Shamir transcript or hashed into a Merkle "
+        "leaf that is compared with a commitment (holds for every campaign setup on the unchanged code); it is a necessary condition for an "
+        "opening to be bound to its commitment, not a sufficient one",
         "Merkle sibling digests are not circuit inputs (HashProofTargets::new allocates nothing); they are NPO private data, outside the packed "
         "vectors and outside this property's quantifier",
     ],
@@ -265,7 +320,10 @@ MANIFEST_ENTRY = {
     "technique": "Lean 4 theorems over separately transcribed allocation / public-packing / private-packing traversals of every Recursive "
                  "implementation, for every shape, and over the guarded zips of merge_hiding_random_openings; differential correspondence by "
                  "sentinel read-back through real circuits and by the shape verdict of the real HidingFriPcs::verify_circuit; single-position and "
-                 "structural (one container grown / shrunk, circuit rebuilt) perturbation of real proofs against the native verifier",
+                 "structural (one container grown / shrunk, circuit rebuilt) perturbation of real proofs against the native verifier, on proofs "
+                 "with single-root commitments and with Merkle caps of height 1-8 on both MMCSs; Lean model of the FRI commit-phase loop "
+                 "(which openings are verified against their commitment, as a function of FRI parameters, folding schedule and cap heights) "
+                 "compared with the graph of circuits built by the real verify_circuit; static dataflow oracles on every verifier circuit",
     "level_claimed": {
         "category": "proof",
         "text": "for every proof shape (tables, widths, optional openings, chunks, cap heights, FRI phases and arities, queries, batch "
@@ -273,7 +331,9 @@ MANIFEST_ENTRY = {
                 "public / private allocations in order, lengths = public_flat_len / private_flat_len, and every allocated input is consumed by "
                 "the verifier model; under well-formed sibling counts (negation without it proved on a witness and replayed). Tied to the Rust "
                 "by line-exact comparison of allocation traces and packed label sequences obtained from sentinel-filled proofs through the real "
-                "allocate / pack / build / run, and by perturbing every packed position of real proofs (native rejects <=> runner fails)",
+                "allocate / pack / build / run, and by perturbing every packed position of real proofs (native rejects <=> runner fails); "
+                "for every folding schedule and every cap height, with log_blowup + log_final_poly_len >= 1, every commit-phase opening is "
+                "hashed and compared with its commitment (friPhases_eq_replicate), tied to the Rust by the friphase correspondence",
         "design_ref": "4/C14",
     },
     "level_note": "Lean kernel + 3 standard axioms; label distinctness checked at run time, not proved; consumption model is block-level; "
